@@ -9,6 +9,15 @@ TRUST = ("rustc's MIR construction, trait resolution and const evaluation (night
          "necessary conditions only: a tree can satisfy every rule and still compute a wrong value.")
 
 CLAIMED = {
+ "C07": dict(technique="catalogue inventory of diagnostic constructions + forward def-use to a sink + stage/severity constants + shape of the parse-error short circuit and of the validity predicate",
+             text="Weak: decides that no catalogued check was deleted or downgraded (per-module floors), that every constructed diagnostic reaches a sink with the matching severity and the stage of its module, that a parse-stage error returns no output and keeps only parse diagnostics while other paths keep the output, that validity is has_output and no errors, and that parsed fractions pass the zero-denominator rejection. It does not decide that a check fires on the right condition, that well-formed recipes are diagnostic-free, or where labels point.",
+             ref="DESIGN.md §5 C07"),
+ "C13": dict(technique="sibling agreement between the parse-time validator and the accessors (call-graph reach per StdKey arm) + integer arithmetic discipline + mutation/ordering rule on the servings list",
+             text="Partial: decides that each standard key is validated at parse time by the interpretation function its accessor uses and that both metadata styles run it and store servings; that the duration parsers' integer arithmetic is the reviewed, checked set; that the servings list is returned in declaration order and its duplicate test runs on a sorted copy. What each parser accepts is not decided.",
+             ref="DESIGN.md §5 C13"),
+ "C14": dict(technique="argument lineage of the two parse entry points + must-pass-through of every parsed metadata entry to the event queue + purity of the projection",
+             text="Weak: decides that both entry points build the same parser, share the entry parser metadata_entry, emit every entry it returns, run the same analysis with the same extensions/converter/options, and that the metadata result is the untouched metadata field. That the two block scanners select the same lines — the core of C14 — is not decided.",
+             ref="DESIGN.md §5 C14"),
  "C06": dict(technique="pairing / ordering / lineage rules on the MIR of the analysis collector (must-pass-through, edge dominance, value lineage by backward slicing)",
              text="Decides structural necessary conditions of referential consistency: step item indices come from the same-kind collector method which returns len(table)-1 of the table it pushed to; content and location tables are pushed in lock-step; references are set from a search that excludes references, and listed back exactly once before the push; the step counter is reset per section and bumped per pushed step; empty sections are not pushed; intermediate references are bounds-checked and step-filtered. Name equality, document order and emptiness of items are not decided.",
              ref="DESIGN.md §5 C06"),
